@@ -232,7 +232,7 @@ class Env:
         self.coarg = {1: Coargument(self.dual[SV], 1), 2: Coargument(self.dual[SW], 1)}
         self.arg = {1: ufl.Argument(V, 1), 2: ufl.Argument(W, 1), 3: ufl.Argument(V, 0)}
         self.weights = [_q(w) for w in table["weights"]]
-        self.sumweights = [_q(w) for w in table["sumweights"]]
+        self.sumweights = [_q(w) for w in table.get("sumweights", [])]  # (absent in replay files recorded earlier)
         self.zeros = table["zeros"]
         self.leaves = [(k, i) for _, k, i in table["leaves"]]
 
@@ -1177,13 +1177,15 @@ def replay(ctx, doc):
 
 
 def selftest(ctx):
-    ctx.rule = "selftest: corrupted predictions (tensor entry, argument number, space, dual flag), a corrupted assembler and a mutated contraction in the specification must all be rejected"
+    ctx.rule = "selftest: corrupted predictions (tensor entry, argument number, space, dual flag; also of a weighted sum and of the derivative of one), a corrupted assembler, weighted sums built or expanded with wrongly paired weights and a mutated contraction in the specification must all be rejected"
     jobs = [
         Job("selftest-enum", 1, leaves=SMALL_LEAVES, sums=(1,), repls=ALL_REPLS),
         # contraction with the FIRST slot of the left operand instead of the last: the laws must fail
         Job("selftest-mutant-laws", 1, leaves=SMALL_LEAVES, dump=False, invs=LAW_INVS, mutate=("ta[Append(SubSeq(s, 1, p), k)]", "ta[<<k>> \\o SubSeq(s, 1, p)]")),
+        # weighted sums of c, c2, Lf_V in every order, then a derivative
+        Job("selftest-sums", 2, leaves={1, 4, 5, 19}, sums=(1,), dercoefs=(1, 4), invs=SUM_INVS, workers=1, **dict(SUM_KW, compops=())),
     ]
-    done = run_jobs(ctx, jobs)
+    done = run_jobs(ctx, jobs, parallel=3)
     tlc.require_ok(done["selftest-enum"].res, "selftest enumeration")
     mres = done["selftest-mutant-laws"].res
     rejected = {}
@@ -1269,8 +1271,37 @@ def selftest(ctx):
     finally:
         E.sumweight = orig_sw
     rejected["mutant-sum-weights-rotated"] = [f"{nbad3} lines rejected"] if nbad3 else []
+    # derivatives of weighted sums in which a component vanishes before one that does not
+    tlc.require_ok(done["selftest-sums"].res, "selftest sums")
+    stable, slines = split_prints(done["selftest-sums"])
+    E = setup(stable)
+    slines = [json.loads(json.loads(s)) for s in slines]
+    dsum = [l for l in slines if len(l[0]) == 2 and l[0][1][0] == 8 and "".join(str(x) for x in l[1][1][6]) in ("100", "010", "101")]
+    if not dsum or any(replay_program(E, _ASM, l, "ops", {}, {})[1] for l in dsum):
+        raise MachineryError("selftest: no conforming derivative of a weighted sum with an inner vanishing component")
+    f = replay_program(E, _ASM, dsum[0], "ops", {}, {}, corrupt=bump_t)[1]
+    rejected["predicted-tensor-entry-derivative-of-sum"] = [f[1]] if f else []
+    # an expansion that pairs the surviving components with the wrong weights must be noticed
+    import ufl.algorithms as ualg
+    from ufl.classes import FormSum
+
+    orig_expand = ualg.expand_derivatives
+
+    def bad_expand(o, **kw):
+        r = orig_expand(o, **kw)
+        if isinstance(r, FormSum) and len(r.components()) >= 2:
+            ws = list(r.weights())
+            return FormSum(*zip(r.components(), ws[1:] + ws[:1]))
+        return r
+
+    ualg.expand_derivatives = bad_expand
+    try:
+        nbad4 = sum(bool(replay_program(E, _ASM, l, "ops", {}, {})[1]) for l in dsum)
+    finally:
+        ualg.expand_derivatives = orig_expand
+    rejected["mutant-expansion-shifts-weights"] = [f"{nbad4} of {len(dsum)} lines rejected"] if nbad4 else []
     ctx.traces(len(rejected))
-    ctx.evaluated(len(rejected) + 2 * len(lines))
+    ctx.evaluated(len(rejected) + 2 * len(lines) + 2 * len(dsum))
     ctx.sample({"selftest": rejected})
     for k, v in rejected.items():
         print(f"  selftest {k}: {'rejected ' + str(v) if v else 'ACCEPTED'}")
